@@ -47,7 +47,27 @@ func eitherV(v V) exp    { return exp{errOK: true, hasObs: true, obs: v} }
 func eitherNone() exp    { return exp{errOK: true} }
 func unorderedV(v V) exp { return exp{hasObs: true, obs: v, unordered: true} }
 
-func eqV(a, b V) bool { return render(a) == render(b) }
+func eqV(a, b V) bool {
+	// numbers are equal by value whatever their type (2 == 2.0)
+	if x, ok := asNumber(a); ok {
+		if y, ok := asNumber(b); ok {
+			return x == y
+		}
+	}
+	return render(a) == render(b)
+}
+
+func asNumber(v V) (float64, bool) {
+	switch x := v.(type) {
+	case int64:
+		return float64(x), true
+	case int:
+		return float64(x), true
+	case mfloat:
+		return float64(x), true
+	}
+	return 0, false
+}
 
 func truthy(v V) bool {
 	switch x := v.(type) {
